@@ -279,7 +279,10 @@ pub(crate) fn parse_vlq_segment_into(segment: &str, rv: &mut Vec<i64>) -> Result
         let enc = i64::from(B64[c as usize]);
         let val = enc & 0b11111;
         let cont = enc >> 5;
-        cur += val.checked_shl(shift).ok_or(Error::VlqOverflow)?;
+        cur += val
+            .checked_shl(shift)
+            .filter(|shifted| shifted >> shift == val)
+            .ok_or(Error::VlqOverflow)?;
         shift += 5;
 
         if cont == 0 {
